@@ -1,0 +1,112 @@
+//! Verification hooks (compiled only with `--cfg iref_verif`).
+//!
+//! Every outermost call of a mutating operation writes one line to the file
+//! named by the environment variable `IREF_VERIF_TRACE`: the type the
+//! operation ran on, its name, the whole buffer before and after the call and
+//! the argument (hexadecimal, `null` when absent). Calls an operation makes to
+//! other operations are not recorded. Nothing is written, and nothing is
+//! copied, when the variable is not set.
+use std::{
+	cell::Cell,
+	fmt::Write as _,
+	fs::OpenOptions,
+	io::Write as _,
+	sync::{Mutex, OnceLock},
+};
+
+thread_local! {
+	static DEPTH: Cell<usize> = const { Cell::new(0) };
+}
+
+fn sink() -> Option<&'static Mutex<std::fs::File>> {
+	static SINK: OnceLock<Option<Mutex<std::fs::File>>> = OnceLock::new();
+	SINK.get_or_init(|| {
+		let path = std::env::var_os("IREF_VERIF_TRACE")?;
+		OpenOptions::new()
+			.create(true)
+			.append(true)
+			.open(path)
+			.ok()
+			.map(Mutex::new)
+	})
+	.as_ref()
+}
+
+fn hex(out: &mut String, bytes: Option<&[u8]>) {
+	match bytes {
+		Some(bytes) => {
+			out.push('"');
+			for b in bytes {
+				let _ = write!(out, "{b:02x}");
+			}
+			out.push('"');
+		}
+		None => out.push_str("null"),
+	}
+}
+
+/// One recorded call, from its entry to its exit.
+pub struct Span {
+	line: Option<String>,
+}
+
+/// Enters the operation `op` of type `T`.
+pub fn enter<T: ?Sized>(
+	op: &'static str,
+	standalone: bool,
+	pre: &[u8],
+	arg: Option<&[u8]>,
+) -> Span {
+	let depth = DEPTH.with(|d| {
+		let depth = d.get();
+		d.set(depth + 1);
+		depth
+	});
+
+	let line = if depth == 0 && sink().is_some() {
+		let mut line = String::new();
+		let _ = write!(
+			line,
+			"{{\"ty\":\"{}\",\"op\":\"{op}\",\"standalone\":{standalone},\"pre\":",
+			std::any::type_name::<T>()
+		);
+		hex(&mut line, Some(pre));
+		line.push_str(",\"arg\":");
+		hex(&mut line, arg);
+		Some(line)
+	} else {
+		None
+	};
+
+	Span { line }
+}
+
+impl Span {
+	/// Leaves the operation: `post` is the whole buffer after the call.
+	pub fn exit(mut self, post: &[u8]) {
+		if let Some(mut line) = self.line.take() {
+			line.push_str(",\"panic\":false,\"post\":");
+			hex(&mut line, Some(post));
+			line.push_str("}\n");
+			write_line(&line)
+		}
+	}
+}
+
+impl Drop for Span {
+	fn drop(&mut self) {
+		DEPTH.with(|d| d.set(d.get().saturating_sub(1)));
+		if let Some(mut line) = self.line.take() {
+			// the operation did not return
+			line.push_str(",\"panic\":true,\"post\":null}\n");
+			write_line(&line)
+		}
+	}
+}
+
+fn write_line(line: &str) {
+	if let Some(sink) = sink() {
+		let mut file = sink.lock().unwrap_or_else(|e| e.into_inner());
+		let _ = file.write_all(line.as_bytes());
+	}
+}
